@@ -7,7 +7,7 @@
   * `C17_value`  the value it returns is the datasheet decoding of the bytes
                  served (for the three 2-bit fields the reserved code 3 is left
                  free - the statement then only says that a value is returned);
-  * `C17_i2c`, `C17_spi`  the same end to end through the interpreter and both
+  * `C17_run` (Thm/Getters.lean)  the same end to end through the interpreter and both
                  transports, in the exact form `P.C17` that `judge` evaluates on
                  the real crate.
   All quantifiers range over all 2^8 / 2^16 / 2^24 register contents.
